@@ -11,6 +11,7 @@ mod c15;
 mod dump;
 mod gal;
 mod gen;
+mod hist_stage;
 mod lib_stage;
 mod libgen;
 mod rng;
@@ -38,6 +39,9 @@ fn module(prop: &str) -> PropModule {
         "C06" => PropModule { coq_module: "Check_Norm", runner: "Check_Norm.run_C06", generate: |r, t| libgen::generate_mixed(r, t, 320), execute: lib_stage::execute, label: libgen::label },
         "C07" => PropModule { coq_module: "Check_Norm", runner: "Check_Norm.run_C07", generate: |r, t| libgen::generate_mixed(r, t, 320), execute: lib_stage::execute, label: libgen::label },
         "NORM" => PropModule { coq_module: "Check_Norm", runner: "Check_Norm.run_norm_explore", generate: |r, t| libgen::generate_mixed(r, t, 400), execute: lib_stage::execute, label: libgen::label },
+        "HIST" => PropModule { coq_module: "Check_Hist", runner: "Check_Hist.run_HIST", generate: |r, t| hist_stage::generate(r, t, 160), execute: hist_stage::execute, label: hist_stage::label },
+        "C20" => PropModule { coq_module: "Check_Hist", runner: "Check_Hist.run_C20", generate: |r, t| hist_stage::generate(r, t, 160), execute: hist_stage::execute, label: hist_stage::label },
+        "C04" => PropModule { coq_module: "Check_Hist", runner: "Check_Hist.run_C04", generate: |r, t| hist_stage::generate(r, t, 160), execute: hist_stage::execute, label: hist_stage::label },
         "LIB" => PropModule { coq_module: "Check_Lib", runner: "Check_Lib.run_corr", generate: |r, t| libgen::generate_mixed(r, t, 200), execute: lib_stage::execute, label: libgen::label },
         _ => {
             eprintln!("unknown property {}", prop);
@@ -82,7 +86,7 @@ fn main() {
             inputs.push(serde_json::from_str(line).unwrap());
         }
     } else {
-        let corpus_name = match prop.as_str() { "C01" | "C02" | "C06" | "C07" | "NORM" | "LIB" => "NORM".to_string(), p => p.to_string() };
+        let corpus_name = match prop.as_str() { "C01" | "C02" | "C06" | "C07" | "NORM" | "LIB" => "NORM".to_string(), "C04" | "C20" | "HIST" => "HIST".to_string(), p => p.to_string() };
         let corpus = PathBuf::from(env!("CARGO_MANIFEST_DIR")).join("corpus").join(format!("{}.jsonl", corpus_name));
         if let Ok(text) = fs::read_to_string(&corpus) {
             for line in text.lines() {
